@@ -40,7 +40,8 @@ JudgeRt(e) ==
     ELSE LET pre == IF e.t.k = "arr" /\ e.t.lk = "derived"
                     THEN Enc(e.t.lt, MkI(SmallToBig(IF e.t.el.k = "bits" THEN Len(e.v.l) \div (8 * e.t.el.w) ELSE Len(e.v.l)))) ELSE <<>>
              d == Dec(e.t, pre \o r.bytes)
-         IN IF d.st # "ok" THEN "MACHINERY:reference-roundtrip"
+         IN IF d.st # "ok" THEN (IF pre \o r.bytes = <<>> THEN "ok"          \* a non-empty value of zero-size elements encodes to nothing: no round trip to demand
+                                 ELSE "MACHINERY:reference-roundtrip")
             ELSE IF e.out.kind = "val" /\ TermEq(e.out.v, d.val) THEN "ok" ELSE "C06:roundtrip"
 
 \* decoding from a stream consumes exactly the encoded bytes and yields the same value
